@@ -68,7 +68,7 @@ impl Profile {
             p_drop: 50,
             p_panic: 15,
             p_wrong_kind: 30,
-            deep: false,
+            deep: true,
             page_4k_only: false,
         }
     }
@@ -130,6 +130,7 @@ impl Profile {
             }
             "C08" => {
                 p.name = "faults";
+                p.deep = false;
                 p.steps = (2, 10);
                 p.ops = (1, 8);
                 p.w_readonly = 0;
